@@ -314,7 +314,7 @@ pub fn c11_case(data: &[u8]) -> sender::SendCase {
     let mut d = D::new(data);
     let reuse = reuse_cfg(&mut d);
     let sends = d.vec(1, 2, |d| {
-        let mut s = send_one(d, false, true);
+        let mut s = send_one(d, true, true);
         s.tail_base = s.tail_base.max(7);
         s
     });
@@ -565,7 +565,7 @@ pub fn c07_case(data: &[u8]) -> c07::Scenario {
 pub fn c10_case(data: &[u8]) -> c10::Case {
     let mut d = D::new(data);
     let reuse = reuse_cfg(&mut d);
-    let storage = if d.pick(4) == 0 { d.range(0, 99) as u16 } else { 400 };
+    let storage = if d.pick(4) == 0 { d.range(0, 99) as u16 } else { 10000 };
     let free_bufs = if d.pick(5) == 0 { d.range(0, 3) as u8 } else { 4 };
     let know_mand = d.pick(4) != 0;
     let items = d.vec(1, 16, |d| {
@@ -573,8 +573,8 @@ pub fn c10_case(data: &[u8]) -> c10::Case {
         let len = |d: &mut D| match d.pick(8) { 0 | 1 => d.range(0, 2), 2..=5 => d.range(3, 59), _ => d.range(60, 399) } as u16;
         let it = match d.pick(14) {
             0..=4 => c10::Item::Complete { lab: lab(d, false, true), len: len(d), kind: [0u8, 0, 0, 0, 1, 1, 2, 2, 3, 4][d.pick(10)] },
-            5..=7 => c10::Item::Start { id: d.range(0, 5) as u8, lab: lab(d, false, true), len: if d.pick(3) == 0 { 0 } else { d.range(4, 399) as u16 }, first_payload: d.range(0, 39) as u8, ext: d.bool() },
-            8..=12 => c10::Item::Cont { k: d.u16(), n: if d.pick(3) == 0 { d.range(30, 499) as u16 } else { d.range(0, 29) as u16 }, corrupt: d.pick(7) == 0 },
+            5..=7 => c10::Item::Start { id: d.range(0, 5) as u8, lab: lab(d, false, true), len: match d.pick(8) { 0 | 1 => 0, 2 => d.range(4000, 8999) as u16, _ => d.range(4, 399) as u16 }, first_payload: d.range(0, 39) as u8, ext: d.bool() },
+            8..=12 => c10::Item::Cont { k: d.u16(), n: match d.pick(8) { 0 | 1 => d.range(30, 499) as u16, 2 => d.range(4070, 4110) as u16, 3 => d.range(500, 5999) as u16, _ => d.range(0, 29) as u16 }, corrupt: d.pick(7) == 0 },
             _ => c10::Item::Orphan { id: d.range(0, 5) as u8, end: d.bool() },
         };
         (brk, it)
